@@ -154,7 +154,7 @@ func (g *gen) errorType(name string, typs []types.Type) ([]types.Type, error) {
 		return nil, fmt.Errorf("%s, the first argument is a function, but it has no results", name)
 	}
 	last := res.At(res.Len() - 1)
-	if !derive.IsError(last.Type()) {
+	if !derive.IsErrorType(last.Type()) {
 		return nil, fmt.Errorf("%s, the first argument is a function, but its last result is not an error: %v", name, last.Type())
 	}
 	outTyps := make([]types.Type, res.Len()-1)
